@@ -155,3 +155,330 @@ Theorem C08_lcp_exists : forall (HO : hops), beq_correct HO -> forall h s : byte
   (exists r, s = h ++ r) \/ (exists d, (d < length h)%nat /\ lcp_len HO s h d).
 Proof. exact lcp_exists. Qed.
 Print Assumptions C08_lcp_exists.
+
+(* ======== Gap audit (proofs in Proofs/GapEnc.v, Proofs/GapEncStore.v, Proofs/GapStores.v, Proofs/GapDecAgree.v) ========
+   - the item stream IS the sync validating encoder, item by item, on every store: no premise (C08_encode_agree states it
+     under a premise about load_fsm it does not need);
+   - sync / fsm validating encoders: they agree whenever no sync load of a parent of the plan fails, and they DISAGREE on
+     an io-backed outboard whose byte vector is truncated (finding, witness below);
+   - all five encoders on a created store; all creation entry points and the loads of all store kinds agree;
+   - decode_ranges (sync) and decode_ranges (fsm) agree on every stream. *)
+From BaoV Require Import Spec.NodeSpec Proofs.HistOb Proofs.FinalStore Proofs.GapEnc Proofs.GapEncStore Proofs.GapStores
+  Proofs.GapDecAgree.
+
+Theorem C08_mixed_is_sync : forall (HO : hops) (data' : bytes HO) (ob : outboard HO) (q : ranges),
+  exists its : list (item HO),
+    encode_ranges_validated HO data' ob q
+      = (fst (encode_ranges_validated HO data' ob q), concat (map (item_bytes HO) its)) /\
+    traverse_ranges_validated HO data' ob q =
+    match fst (encode_ranges_validated HO data' ob q) with
+    | Ok _ => Some (ESize (tsize (ob_tree ob)) :: map EItem its ++ [EDone])
+    | Err e => Some (ESize (tsize (ob_tree ob)) :: map EItem its ++ [EError e])
+    | Panic => None
+    end.
+Proof. exact trv_erv. Qed.
+Print Assumptions C08_mixed_is_sync.
+
+(* any store, any data file: same result and same bytes from the sync and fsm validating encoders as soon as every
+   sync load of a parent of the plan returns (Ok: a pair or "no slot") *)
+Theorem C08_encode_agree_loads : forall (HO : hops) (data' : bytes HO) (ob : outboard HO) (q : ranges),
+  q <> [] ->
+  (forall nd, In nd (plan_nodes (pre_order_chunks_iter (ob_tree ob) (truncate_ranges q (tsize (ob_tree ob))) 0)) ->
+     exists x, load_sync HO ob nd = Ok x) ->
+  encode_ranges_validated HO data' ob q = encode_ranges_validated_fsm HO data' ob q.
+Proof. exact encode_agree_loads. Qed.
+Print Assumptions C08_encode_agree_loads.
+
+(* FINDING: that premise is needed.  An io-backed pre-order outboard (PreOrderOutboard over a file / Vec) whose byte
+   vector holds only its first pair (`full` is the blob's complete outboard, 128 bytes; the store holds take 64 full):
+   the blob's own data, query = everything, block size 0, 3 chunks, collision-free hash.  sync::encode_ranges_validated
+   sends the root pair and returns Err (Io UnexpectedEof) (read_exact_at on the short file); fsm::encode_ranges_validated
+   sends the same 64 bytes and returns Err (ParentHashMismatch 0): its load turns a short read into a pair of zero
+   hashes (src/io/fsm.rs:157-168, 290-301: `if content.len() != 64 { zero pair }`).  Same store, same query: different
+   error variants - the clause "for a store with altered bytes the same error variant at the same node" fails for
+   truncated io-backed outboards. *)
+Theorem C08_truncated_io_disagree :
+  exists (HO : hops) (data : bytes HO) (bs : N) (ob : outboard HO) (q : ranges) (out : bytes HO),
+    hash_ok HO /\ blen HO data <= 2 ^ 63 /\ bs <= 10 /\ wf_ranges q = true /\ q <> [] /\
+    ob_k ob = PreIO /\ ob_tree ob = mkTree (blen HO data) bs /\ ob_root ob = root_hash HO data /\
+    (exists full, created_store HO data bs (mkOb PreIO (ob_root ob) (ob_tree ob) full) /\
+                  ob_data ob = take HO 64 full /\ blen HO full = 128) /\
+    encode_ranges_validated HO data ob q = (Err (EIo KUnexpectedEof), out) /\
+    encode_ranges_validated_fsm HO data ob q = (Err (EParentHashMismatch 0), out) /\
+    length out = 64%nat.
+Proof. exact truncated_io_disagree. Qed.
+Print Assumptions C08_truncated_io_disagree.
+
+(* on a store created by the crate (created_store, Props/C03.v) and the blob's own data all five encoders return Ok;
+   the validating ones and the item stream send the honest encoding for every well-formed query, the non-validating
+   ones do so when every touched chunk group is fully selected (groups_full; what they send otherwise: see the exact
+   characterisation C08_nonvalidating_exact below) *)
+Theorem C08_created_five : forall (HO : hops), hash_ok HO ->
+  forall (data : bytes HO) (bs : N), blen HO data <= 2 ^ 63 -> bs <= 10 ->
+  forall ob : outboard HO, created_store HO data bs ob ->
+  forall q : ranges, wf_ranges q = true ->
+  encode_ranges_validated HO data ob q = (Ok tt, flat HO (honest HO data bs q)) /\
+  encode_ranges_validated_fsm HO data ob q = (Ok tt, flat HO (honest HO data bs q)) /\
+  (exists its, traverse_ranges_validated HO data ob q = Some (ESize (blen HO data) :: map EItem its ++ [EDone]) /\
+               concat (map (item_bytes HO) its) = flat HO (honest HO data bs q)) /\
+  (groups_full bs q (blen HO data) ->
+     encode_ranges HO data ob q = (Ok tt, flat HO (honest HO data bs q)) /\
+     encode_ranges_fsm HO data ob q = (Ok tt, flat HO (honest HO data bs q))).
+Proof. exact created_five. Qed.
+Print Assumptions C08_created_five.
+
+(* creation: every entry point against every other (created_by, Props/C03.v: the six entry points);
+   is_post k = true for PostIO / PostMem *)
+Theorem C08_creation_agree : forall (HO : hops), cv_len32 HO ->
+  forall (data : bytes HO) (bs : N), blen HO data <= 2 ^ 63 -> bs <= 10 ->
+  (outboard_post_order HO (mkTree (blen HO data) bs) data
+     = (Ok (root_hash HO data), spec_outboard HO true data bs, []) /\
+   outboard_post_order_fsm HO (mkTree (blen HO data) bs) data
+     = (Ok (root_hash HO data), spec_outboard HO true data bs, [])) /\
+  (forall ob1 ob2 : outboard HO, created_by HO data bs ob1 -> created_by HO data bs ob2 ->
+     ob_root ob1 = ob_root ob2 /\ ob_tree ob1 = ob_tree ob2 /\
+     (is_post (ob_k ob1) = is_post (ob_k ob2) -> ob_data ob1 = ob_data ob2) /\
+     (is_post (ob_k ob1) = true ->
+        outboard_post_order HO (mkTree (blen HO data) bs) data = (Ok (ob_root ob1), ob_data ob1, [])) /\
+     (forall nd, In nd (sp_pre_nodes (blen HO data) bs) ->
+        load_sync HO ob1 nd = load_sync HO ob2 nd /\ load_fsm HO ob1 nd = load_fsm HO ob2 nd /\
+        load_sync HO ob1 nd = load_fsm HO ob1 nd)) /\
+  (forall ob0 ob : outboard HO,
+     (ob_k ob0 = PreIO \/ ob_k ob0 = PostIO \/ ob_k ob0 = PreMem \/ ob_k ob0 = PostMem) ->
+     ob_tree ob0 = mkTree (blen HO data) bs ->
+     blen HO (ob_data ob0) = (sp_blocks (blen HO data) bs - 1) * 64 ->
+     created_by HO data bs ob -> ob_k ob = ob_k ob0 ->
+     init_from HO ob0 data = Ok ob /\ init_from_fsm HO ob0 data = Ok ob).
+Proof. exact creation_agree. Qed.
+Print Assumptions C08_creation_agree.
+
+(* the fifth store kind: EmptyOutboard has a slot exactly where the other four kinds store a pair (the persisted nodes of
+   the tree), and loads a pair of zero hashes there, sync and fsm alike.  With C03_created_store_intact: on the nodes of
+   the tree all five kinds agree on which nodes have a pair, and the four real kinds agree on the pair *)
+Theorem C08_empty_outboard_loads : forall (HO : hops) (size bs : N) (ob : outboard HO),
+  size <= 2 ^ 63 -> bs <= 10 -> ob_k ob = EmptyOb -> ob_tree ob = mkTree size bs ->
+  forall nd, In nd (sp_pre_nodes size bs) ->
+  load_sync HO ob nd = Ok (if sp_persisted size bs nd then Some (zero_pair HO) else None) /\
+  load_fsm HO ob nd = Ok (if sp_persisted size bs nd then Some (zero_pair HO) else None).
+Proof. exact empty_ob_loads. Qed.
+Print Assumptions C08_empty_outboard_loads.
+
+(* decode_ranges of sync.rs and of fsm.rs on EVERY stream (honest, truncated, tampered), any target, any outboard
+   carrying the blob's root and tree, any well-formed query (the empty one included): same result (Ok / the same error),
+   same target bytes, same outboard *)
+Theorem C08_decode_ranges_agree : forall (HO : hops), hash_ok HO ->
+  forall (data : bytes HO) (bs : N) (q : ranges),
+  blen HO data <= 2 ^ 63 -> bs <= 10 -> wf_ranges q = true ->
+  forall (stream target : bytes HO) (ob : outboard HO),
+  ob_root ob = root_hash HO data -> ob_tree ob = mkTree (blen HO data) bs ->
+  exists (r : res dec_err unit) (target' : bytes HO) (ob' : outboard HO) st1 st2,
+    decode_ranges HO stream q target ob = (r, target', ob', st1) /\
+    decode_ranges_fsm HO stream q target ob = (r, target', ob', st2).
+Proof. exact decode_ranges_agree. Qed.
+Print Assumptions C08_decode_ranges_agree.
+
+(* ======== Gap audit: the exact output of the NON-VALIDATING encoders (finding F6 made precise;
+   proofs in Proofs/GapNonval.v, Proofs/GapNonvalW.v, Proofs/GapNonvalX.v) ========
+   The clause "the non-validating encoders produce the same bytes as the validating ones on an intact
+   store" is false in general (C08_nonvalidating_refuted).  What holds for EVERY well-formed query:
+     - encode_ranges / encode_ranges_fsm on an intact store emit exactly nv_spec (C08_nonvalidating_exact):
+       per interval nothing if no chunk is selected, the bytes of the WHOLE interval if it is at most one
+       chunk group (whatever part of the group is selected; no inner hash pairs), the true pair and the two
+       halves otherwise; per unit of the plan: C08_nonvalidating_units;
+     - nv_spec is the HONEST encoding of the selection widened to whole chunk groups
+       (C08_nv_is_widened_honest), i.e. of a well-formed SUPERSET query q' (C08_nonvalidating_is_honest_superset):
+       a receiver that asked for q is sent a valid encoding of q', which the decoders set up for q' accept
+       (C08_nonvalidating_decodes_as_superset);
+     - widening is the identity exactly under groups_full (C08_widen_id_iff), and the item list flattened by
+       the non-validating encoders is the honest item list of q exactly under groups_full
+       (C08_nonvalidating_items_iff);
+     - as byte strings the two encoders agree iff the two flattened specifications agree, which groups_full
+       implies (C08_nonvalidating_eq_validating_iff_spec); for an arbitrary hash instance groups_full is NOT
+       necessary for equal bytes (C08_nonvalidating_eq_without_groups_full: the hash values happen to equal
+       the data); cv_injective alone does not exclude such a coincidence (it is a fixed point condition on
+       the hash), so no byte-level "only if" is stated. *)
+From BaoV Require Import Spec.NodeSpec Proofs.FinalStore Proofs.GapNonval Proofs.GapNonvalW Proofs.GapNonvalX.
+
+(* ---- the specification objects ---- *)
+Theorem C08_nv_rec_unfold : forall (HO : hops) (f : nat) (data : bytes HO) (bs : N) (S0 : N -> bool) (a b : N),
+  nv_rec HO 0 data bs S0 a b = [] /\
+  nv_rec HO (S f) data bs S0 a b =
+    if negb (existsb S0 (chunk_range_list a b)) then []
+    else if b - a <=? 2 ^ bs then chunk_bytes HO data a b
+    else
+      cv HO data a (a + next_pow2 (b - a) / 2) false ++ cv HO data (a + next_pow2 (b - a) / 2) b false
+        ++ nv_rec HO f data bs S0 a (a + next_pow2 (b - a) / 2)
+        ++ nv_rec HO f data bs S0 (a + next_pow2 (b - a) / 2) b.
+Proof. intros. split; [reflexivity|apply nv_rec_unfold]. Qed.
+Print Assumptions C08_nv_rec_unfold.
+
+(* with the fuel of nv_spec the recursion is an equation on every interval of at most 2^63 chunks *)
+Theorem C08_nv_rec_eq : forall (HO : hops) (data : bytes HO) (bs : N) (S0 : N -> bool) (a b : N),
+  b - a <= 2 ^ 63 ->
+  nv_rec HO 64 data bs S0 a b =
+    if negb (existsb S0 (chunk_range_list a b)) then []
+    else if b - a <=? 2 ^ bs then chunk_bytes HO data a b
+    else
+      cv HO data a (a + next_pow2 (b - a) / 2) false ++ cv HO data (a + next_pow2 (b - a) / 2) b false
+        ++ nv_rec HO 64 data bs S0 a (a + next_pow2 (b - a) / 2)
+        ++ nv_rec HO 64 data bs S0 (a + next_pow2 (b - a) / 2) b.
+Proof. exact nv_rec_eq. Qed.
+Print Assumptions C08_nv_rec_eq.
+
+Theorem C08_nv_spec_def : forall (HO : hops) (data : bytes HO) (bs : N) (S0 : N -> bool),
+  nv_spec HO data bs S0 = nv_rec HO 64 data bs S0 0 (nchunks (blen HO data)).
+Proof. exact nv_spec_def. Qed.
+Print Assumptions C08_nv_spec_def.
+
+Theorem C08_nv_unit_def : forall (HO : hops) (data : bytes HO) (bs : N) (c : chunk),
+  nv_unit HO data bs c =
+  match c with
+  | CParent nd _ _ _ _ => fst (true_pair HO data nd) ++ snd (true_pair HO data nd)
+  | CLeaf s _ _ _ => chunk_bytes HO data s (N.min (s + 2 ^ bs) (nchunks (blen HO data)))
+  end.
+Proof. exact nv_unit_def. Qed.
+Print Assumptions C08_nv_unit_def.
+
+Theorem C08_widen_def : forall (bs size : N) (Sel : N -> bool) (c : N),
+  widen bs size Sel c =
+  (c <? nchunks size) &&
+  existsb Sel (chunk_range_list (c / 2 ^ bs * 2 ^ bs) (N.min ((c / 2 ^ bs + 1) * 2 ^ bs) (nchunks size))).
+Proof. exact widen_def. Qed.
+Print Assumptions C08_widen_def.
+
+(* ---- the exact output, for every well-formed query (no groups_full premise; the empty query gives []) ---- *)
+Theorem C08_nonvalidating_exact : forall (HO : hops) (data : bytes HO) (bs : N) (q : ranges),
+  wf_ranges q = true -> blen HO data <= 2 ^ 63 -> bs <= 10 ->
+  forall ob : outboard HO, ob_tree ob = mkTree (blen HO data) bs ->
+  ((forall nd, In nd (enc_nodes_raw (blen HO data) bs q) -> stored_ok HO data ob nd) ->
+   encode_ranges HO data ob q = (Ok tt, nv_spec HO data bs (sel q (blen HO data)))) /\
+  ((forall nd, In nd (enc_nodes_raw (blen HO data) bs q) -> stored_ok_fsm HO data ob nd) ->
+   encode_ranges_fsm HO data ob q = (Ok tt, nv_spec HO data bs (sel q (blen HO data)))).
+Proof. exact nonval_exact. Qed.
+Print Assumptions C08_nonvalidating_exact.
+
+(* unit by unit: for every leaf unit of the plan of the raw query the bytes of the whole chunk group
+   (clipped to the blob), whatever the query selects in it; for every parent unit the true pair *)
+Theorem C08_nonvalidating_units : forall (HO : hops) (data : bytes HO) (bs : N) (q : ranges),
+  wf_ranges q = true -> blen HO data <= 2 ^ 63 -> bs <= 10 ->
+  forall ob : outboard HO, ob_tree ob = mkTree (blen HO data) bs ->
+  ((forall nd, In nd (enc_nodes_raw (blen HO data) bs q) -> stored_ok HO data ob nd) ->
+   encode_ranges HO data ob q
+   = (Ok tt, concat (map (nv_unit HO data bs) (pre_order_chunks_iter (mkTree (blen HO data) bs) q 0)))) /\
+  ((forall nd, In nd (enc_nodes_raw (blen HO data) bs q) -> stored_ok_fsm HO data ob nd) ->
+   encode_ranges_fsm HO data ob q
+   = (Ok tt, concat (map (nv_unit HO data bs) (pre_order_chunks_iter (mkTree (blen HO data) bs) q 0)))).
+Proof. exact nonval_leaf_units. Qed.
+Print Assumptions C08_nonvalidating_units.
+
+(* the parents of the plan of the raw query are persisted nodes, so a created store is intact for them *)
+Theorem C08_enc_nodes_raw_persisted : forall (size bs : N) (q : ranges), size <= 2 ^ 63 -> bs <= 10 ->
+  wf_ranges q = true ->
+  forall nd, In nd (enc_nodes_raw size bs q) -> In nd (sp_pre_nodes size bs) /\ sp_persisted size bs nd = true.
+Proof. exact enc_nodes_raw_persisted. Qed.
+Print Assumptions C08_enc_nodes_raw_persisted.
+
+Theorem C08_nonvalidating_exact_created : forall (HO : hops), cv_len32 HO ->
+  forall (data : bytes HO) (bs : N), blen HO data <= 2 ^ 63 -> bs <= 10 ->
+  forall ob : outboard HO, created_store HO data bs ob ->
+  forall q : ranges, wf_ranges q = true ->
+  encode_ranges HO data ob q = (Ok tt, nv_spec HO data bs (sel q (blen HO data))) /\
+  encode_ranges_fsm HO data ob q = (Ok tt, nv_spec HO data bs (sel q (blen HO data))) /\
+  nv_spec HO data bs (sel q (blen HO data))
+    = flat HO (enc_spec HO data bs (widen bs (blen HO data) (sel q (blen HO data)))).
+Proof. exact nonval_exact_created. Qed.
+Print Assumptions C08_nonvalidating_exact_created.
+
+(* ---- what these bytes are: the honest encoding of the widened selection ---- *)
+Theorem C08_nv_is_widened_honest : forall (HO : hops) (data : bytes HO) (bs : N) (Sel : N -> bool),
+  blen HO data <= 2 ^ 63 ->
+  nv_spec HO data bs Sel = flat HO (enc_spec HO data bs (widen bs (blen HO data) Sel)).
+Proof. exact nv_is_widened_honest. Qed.
+Print Assumptions C08_nv_is_widened_honest.
+
+Theorem C08_widen_id_iff : forall (bs : N) (q : ranges) (size : N),
+  groups_full bs q size <-> (forall c, widen bs size (sel q size) c = sel q size c).
+Proof. exact widen_id_iff. Qed.
+Print Assumptions C08_widen_id_iff.
+
+Theorem C08_nonvalidating_is_honest_superset : forall (HO : hops) (data : bytes HO) (bs : N) (q : ranges),
+  blen HO data <= 2 ^ 63 ->
+  exists q', wf_ranges q' = true /\
+    (forall c, sel q' (blen HO data) c = widen bs (blen HO data) (sel q (blen HO data)) c) /\
+    (forall c, sel q (blen HO data) c = true -> sel q' (blen HO data) c = true) /\
+    (q <> [] -> wf_ranges q = true -> q' <> []) /\
+    ((forall c, sel q' (blen HO data) c = sel q (blen HO data) c) <-> groups_full bs q (blen HO data)) /\
+    nv_spec HO data bs (sel q (blen HO data)) = flat HO (honest HO data bs q').
+Proof. exact nonval_is_honest_superset. Qed.
+Print Assumptions C08_nonvalidating_is_honest_superset.
+
+Theorem C08_nonvalidating_decodes_as_superset : forall (HO : hops), hash_ok HO ->
+  forall (data : bytes HO) (bs : N), blen HO data <= 2 ^ 63 -> bs <= 10 ->
+  forall ob : outboard HO, created_store HO data bs ob ->
+  forall q : ranges, wf_ranges q = true -> q <> [] ->
+  exists q', wf_ranges q' = true /\ q' <> [] /\
+    (forall c, sel q' (blen HO data) c = widen bs (blen HO data) (sel q (blen HO data)) c) /\
+    encode_ranges HO data ob q = (Ok tt, flat HO (honest HO data bs q')) /\
+    encode_ranges_fsm HO data ob q = (Ok tt, flat HO (honest HO data bs q')) /\
+    forall rest : bytes HO,
+      (exists st, dec_run HO (dec_new HO (ob_root ob) (ob_tree ob) (flat HO (honest HO data bs q') ++ rest) q')
+                  = (honest HO data bs q', Finished, st) /\ d_enc HO st = rest) /\
+      (exists st, rd_run HO (rd_new HO (ob_root ob) q' (ob_tree ob) (flat HO (honest HO data bs q') ++ rest))
+                  = (honest HO data bs q', Finished, st) /\ Fsm.r_enc HO st = rest).
+Proof. exact nonval_decodes_as_superset. Qed.
+Print Assumptions C08_nonvalidating_decodes_as_superset.
+
+(* ---- exactly when the two kinds of encoders coincide ---- *)
+(* as item lists: iff groups_full *)
+Theorem C08_nonvalidating_items_iff : forall (HO : hops) (data : bytes HO) (bs : N) (q : ranges),
+  blen HO data <= 2 ^ 63 ->
+  (enc_spec HO data bs (widen bs (blen HO data) (sel q (blen HO data))) = honest HO data bs q
+   <-> groups_full bs q (blen HO data)).
+Proof. exact nonval_items_iff. Qed.
+Print Assumptions C08_nonvalidating_items_iff.
+
+(* as byte strings, on a store intact for both plans: iff the flattened specifications coincide;
+   groups_full is sufficient *)
+Theorem C08_nonvalidating_eq_validating_iff_spec : forall (HO : hops) (data : bytes HO) (bs : N) (q : ranges),
+  wf_ranges q = true -> blen HO data <= 2 ^ 63 -> bs <= 10 ->
+  forall ob : outboard HO,
+  ob_tree ob = mkTree (blen HO data) bs -> ob_root ob = root_hash HO data -> beq_correct HO ->
+  (forall nd, In nd (enc_nodes_raw (blen HO data) bs q) -> stored_ok HO data ob nd /\ stored_ok_fsm HO data ob nd) ->
+  (forall nd, In nd (enc_nodes (blen HO data) bs q) -> stored_ok HO data ob nd /\ stored_ok_fsm HO data ob nd) ->
+  (snd (encode_ranges HO data ob q) = snd (encode_ranges_validated HO data ob q) <->
+   flat HO (enc_spec HO data bs (widen bs (blen HO data) (sel q (blen HO data)))) = flat HO (honest HO data bs q)) /\
+  (snd (encode_ranges_fsm HO data ob q) = snd (encode_ranges_validated_fsm HO data ob q) <->
+   flat HO (enc_spec HO data bs (widen bs (blen HO data) (sel q (blen HO data)))) = flat HO (honest HO data bs q)) /\
+  (groups_full bs q (blen HO data) ->
+   flat HO (enc_spec HO data bs (widen bs (blen HO data) (sel q (blen HO data)))) = flat HO (honest HO data bs q)).
+Proof. exact nonval_eq_validating_iff_spec. Qed.
+Print Assumptions C08_nonvalidating_eq_validating_iff_spec.
+
+(* groups_full is not necessary for equal BYTES when nothing is assumed of the hash: a created store, a
+   query cutting through a chunk group, and all three encoders emit the same bytes *)
+Theorem C08_nonvalidating_eq_without_groups_full :
+  exists (HO : hops) (data : bytes HO) (bs : N) (ob : outboard HO) (q : ranges),
+    cv_len32 HO /\ beq_correct HO /\ created_store HO data bs ob /\
+    wf_ranges q = true /\ q <> [] /\ blen HO data <= 2 ^ 63 /\ bs <= 10 /\
+    ~ groups_full bs q (blen HO data) /\
+    encode_ranges_validated HO data ob q = (Ok tt, flat HO (honest HO data bs q)) /\
+    encode_ranges HO data ob q = (Ok tt, flat HO (honest HO data bs q)) /\
+    encode_ranges_fsm HO data ob q = (Ok tt, flat HO (honest HO data bs q)).
+Proof. exact nonval_eq_without_groups_full. Qed.
+Print Assumptions C08_nonvalidating_eq_without_groups_full.
+
+(* nonvacuity: a created store whose plan has a parent, a query cutting through a chunk group, all the
+   premises of the theorems above, and the bytes sent (2112) are not the honest ones (1152) *)
+Theorem C08_nonvalidating_exact_nonvacuous :
+  exists (HO : hops) (data : bytes HO) (bs : N) (ob : outboard HO) (q : ranges),
+    cv_len32 HO /\ beq_correct HO /\ created_store HO data bs ob /\
+    wf_ranges q = true /\ q <> [] /\ blen HO data <= 2 ^ 63 /\ bs <= 10 /\
+    ob_tree ob = mkTree (blen HO data) bs /\ ob_root ob = root_hash HO data /\
+    enc_nodes_raw (blen HO data) bs q <> [] /\
+    (forall nd, In nd (enc_nodes_raw (blen HO data) bs q) -> stored_ok HO data ob nd /\ stored_ok_fsm HO data ob nd) /\
+    (forall nd, In nd (enc_nodes (blen HO data) bs q) -> stored_ok HO data ob nd /\ stored_ok_fsm HO data ob nd) /\
+    ~ groups_full bs q (blen HO data) /\
+    length (nv_spec HO data bs (sel q (blen HO data))) = 2112%nat /\
+    length (flat HO (honest HO data bs q)) = 1152%nat.
+Proof. exact nonval_exact_nonvacuous. Qed.
+Print Assumptions C08_nonvalidating_exact_nonvacuous.
